@@ -21,6 +21,10 @@ def steps_of(ops):
 def apply(rebound, rb, sim, cfg, op):
     """Apply one op. Returns a small result record (for digests)."""
     k = op["op"]
+    try:
+        sim.process_messages()      # a stale error message left by an earlier call must not be blamed on this op
+    except RuntimeError:
+        pass
     if k in EDITS:
         # the documented protocol of a careful user when safe_mode is off: synchronise before touching
         # particles / switching, and ask for the cached coordinates to be recalculated afterwards
@@ -96,6 +100,11 @@ def _apply(rebound, rb, sim, cfg, op):
             # (heap overflow once N has grown - observed, outside the listed properties). Reset first, like a careful user.
             sim.reset_integrator()
         sim.integrator = op["integrator"]
+        if op["integrator"] in ("whfast", "saba"):
+            # start from the documented defaults: options left over from an earlier WHFast phase (e.g. a corrector) may be
+            # invalid for the coordinates chosen now; the library reports an error for such combinations and carries on
+            for path in ("ri_whfast.corrector", "ri_whfast.corrector2", "ri_whfast.kernel", "ri_whfast.coordinates"):
+                rb.setf(sim, path, 0)
         # integrators overwrite r->gravity (JACOBI / MERCURIUS / TRACE / NONE); a careful user resets it when switching
         if op["integrator"] not in ("mercurius", "trace"):
             sim.gravity = "none" if op["integrator"] == "sei" else op.get("gravity", "basic")
@@ -122,13 +131,13 @@ def _apply(rebound, rb, sim, cfg, op):
         p.vy += op.get("dvy", 0.0)
         p.m *= op.get("fm", 1.0)
     elif k == "add_variation":
-        if sim.N - sim.N_var <= 0 or not var_ok(sim, sim.integrator, None, current=True):
+        if sim.N - sim.N_var < 2 or not var_ok(sim, sim.integrator, None, current=True):
             return "skip"
         v = sim.add_variation()
         simgen.remember_var(sim, v)
         v.particles[0].x = 1.0
     elif k == "megno":
-        if sim.N_var or sim.N == 0 or not var_ok(sim, sim.integrator, None, current=True) or sim.integrator == "bs":
+        if sim.N_var or sim.N < 2 or not var_ok(sim, sim.integrator, None, current=True) or sim.integrator == "bs":
             return "skip"
         sim.init_megno(seed=op.get("seed", 3))
     elif k == "display_settings":
